@@ -55,3 +55,84 @@ Fixpoint tc_add (b v : Z) (acc : list (Z * (Z * Z))) : list (Z * (Z * Z)) :=
 (* events = (timestamp, integer value); buckets in first-occurrence order *)
 Definition timechart (start end_ step : Z) (evs : list (Z * Z)) : list (Z * (Z * Z)) :=
   fold_left (fun acc e => tc_add (find_bucket_t start end_ step (fst e)) (snd e) acc) evs [].
+
+(* ---------------------------------------------------------------------------------------------
+   `bin <timefield> span=<n><unit> [aligntime=<T>]` (new pipeline: pkg/segment/query/processor/bincommand.go
+   binProcessor.performBinWithSpanTime / getTimeBucketWithAlign; the row-based pipeline has an identical
+   copy in pkg/segment/aggregations/segaggs.go).  Timestamps are epoch milliseconds.
+
+     sub-day units (ms, cs, ds, s, m, h), span = n * unit:
+       aligntime absent : utcTime.Truncate(span)   -- Go rounds down to a multiple of span counted from Go's
+                                                      zero time (1 Jan of year 1 = 62135596800 s before 1970)
+       aligntime = T    : diff   := math.Floor((ts - T) / span)         (float64; exact below 2^52)
+                          bucket := int(T + diff*span); if bucket < 0 { bucket = 0 }
+                          -- FLOOR, not truncation: T is an origin with events on both sides of it
+     day / week units   : totalDays := int(hours since 1970 / 24); slot := totalDays / w * w  (w = n or 7n days)
+                          bucket := slot days after 1970; aligntime is ignored
+   month / quarter / year spans are calendar arithmetic (time.Date) and are not modelled. *)
+Inductive tunit := UMs | UCs | UDs | USec | UMin | UHour | UDay | UWeek.
+
+Definition unit_ms (u : tunit) : Z :=
+  match u with
+  | UMs => 1 | UCs => 10 | UDs => 100 | USec => 1000 | UMin => 60000 | UHour => 3600000
+  | UDay => 86400000 | UWeek => 604800000
+  end.
+
+Definition day_ms : Z := 86400000.
+Definition go_zero_ms : Z := 62135596800000.   (* Unix epoch minus Go's zero time, in ms *)
+
+(* the bucket of the grid {origin + k*span | k in Z} whose span contains ts; Z division is floor division *)
+Definition grid_bucket (origin span ts : Z) : Z := origin + (ts - origin) / span * span.
+
+Definition bin_align (span align ts : Z) : Z :=
+  let b := grid_bucket align span ts in if b <? 0 then 0 else b.
+
+Definition bin_trunc (span ts : Z) : Z := ts - (ts + go_zero_ms) mod span.
+
+Definition bin_days (w ts : Z) : Z := ts / day_ms / w * w * day_ms.
+
+(* width of the buckets of `span=<n><u>` in ms *)
+Definition bin_span (u : tunit) (n : Z) : Z := n * unit_ms u.
+
+Definition bin_time (u : tunit) (n : Z) (align : option Z) (ts : Z) : Z :=
+  match u with
+  | UDay | UWeek => bin_days (n * (unit_ms u / day_ms)) ts
+  | _ => match align with
+         | None => bin_trunc (bin_span u n) ts
+         | Some a => bin_align (bin_span u n) a ts
+         end
+  end.
+
+(* what a truncating integer division would give (Go's `/` on int64 rounds toward zero): NOT what the code
+   computes; kept to state why the floor matters (BucketProofs.trunc_bucket_misses_ts) *)
+Definition trunc_bucket (origin span ts : Z) : Z := origin + Z.quot (ts - origin) span * span.
+
+(* `bin ... | stats count, sum(f) by <binned time>` = grouping by the bucket: (bucket, (count, sum)) *)
+Definition chart_by (key : Z -> Z) (evs : list (Z * Z)) : list (Z * (Z * Z)) :=
+  fold_left (fun acc e => tc_add (key (fst e)) (snd e) acc) evs [].
+
+Definition bin_chart (u : tunit) (n : Z) (align : option Z) (evs : list (Z * Z)) : list (Z * (Z * Z)) :=
+  chart_by (bin_time u n align) evs.
+
+(* the bucket width `timechart span=<n><u>` uses: aggregations.GetIntervalInMillis as coded (after the fix
+   c9c5b98 "timechart span in centiseconds / deciseconds is converted to milliseconds like every other unit").
+     case TMMillisecond: return uint64(numD)                                          -- numD = time.Duration(num)
+     case TMCentisecond: return uint64((numD * 10 * time.Millisecond).Milliseconds())  -- n*10
+     case TMDecisecond:  return uint64((numD * 100 * time.Millisecond).Milliseconds()) -- n*100
+     case TMSecond:      return uint64((numD * time.Second).Milliseconds())   ... minute, hour, day, week alike
+   (month = 30 days, quarter = 120 days: not modelled) *)
+Definition tc_interval (u : tunit) (n : Z) : Z :=
+  match u with
+  | UMs => n
+  | UCs => n * 10
+  | UDs => n * 100
+  | _ => n * unit_ms u
+  end.
+
+(* before the fix: cs / ds returned `uint64(numD * 10 * time.Millisecond)`, a Duration, i.e. NANOseconds *)
+Definition tc_interval_prefix (u : tunit) (n : Z) : Z :=
+  match u with
+  | UCs => n * 10 * 1000000
+  | UDs => n * 100 * 1000000
+  | _ => tc_interval u n
+  end.
